@@ -33,6 +33,7 @@ type c20Case struct {
 	Programs [][]c20Step `json:"programs"`
 	Procs    int         `json:"procs"`
 	Repeat   int         `json:"repeat"` // each program is run this many times in a row
+	AVX2     bool        `json:"avx2"`   // run the whole case on the AVX2 kernels (their Go wrappers differ from the AVX-512 ones)
 }
 
 // docFor builds a document that names its goroutine, so that any cross-talk shows up in the content.
@@ -190,11 +191,17 @@ type c20Facts struct {
 
 var lastC20 c20Facts
 
-func c20Check(c c20Case) error {
+func c20Check(c c20Case) (err error) {
 	crumb("C20", "programs", c)
 	defer clearCrumb()
 	stop := watchdog(10*time.Minute, "C20 case")
 	defer stop()
+	// the kernel is a process-wide switch: it is set before the goroutines start and restored after they have been joined
+	withKernel(!c.AVX2, func() { err = c20Body(c) })
+	return err
+}
+
+func c20Body(c c20Case) error {
 	procs := c.Procs
 	if procs < 1 {
 		procs = 1
@@ -305,7 +312,7 @@ func TestC20_Programs(t *testing.T) {
 			ng = rapid.IntRange(16, 64).Draw(t, "manyg")
 		}
 		pressure := rapid.IntRange(0, 3).Draw(t, "zstdpressure") == 0
-		c := c20Case{Procs: []int{1, 2, 4, 16, 32}[rapid.IntRange(0, 4).Draw(t, "procs")], Repeat: rapid.IntRange(1, 2).Draw(t, "repeat")}
+		c := c20Case{Procs: []int{1, 2, 4, 16, 32}[rapid.IntRange(0, 4).Draw(t, "procs")], Repeat: rapid.IntRange(1, 2).Draw(t, "repeat"), AVX2: rapid.IntRange(0, 2).Draw(t, "avx2") == 0}
 		same := rapid.Bool().Draw(t, "sameprogram")
 		var first []c20Step
 		for g := 0; g < ng; g++ {
@@ -323,7 +330,7 @@ func TestC20_Programs(t *testing.T) {
 		f := lastC20
 		b, _ := json.Marshal(c)
 		cl := col("C20")
-		cl.Eval(f.overlapped >= 4 && f.sameCodec >= 2, evidHash(b), fmt.Sprintf("procs:%d", c.Procs), fmt.Sprintf("goroutines:%d", bucketG(ng)), fmt.Sprintf("overlapped:%d", bucketG(f.overlapped)), boolClass("zstd-pressure", pressure))
+		cl.Eval(f.overlapped >= 4 && f.sameCodec >= 2, evidHash(b), fmt.Sprintf("procs:%d", c.Procs), fmt.Sprintf("goroutines:%d", bucketG(ng)), fmt.Sprintf("overlapped:%d", bucketG(f.overlapped)), boolClass("zstd-pressure", pressure), boolClass("avx2-kernels", c.AVX2))
 		cl.Sample(func() interface{} {
 			return map[string]interface{}{"goroutines": ng, "procs": c.Procs, "repeat": c.Repeat, "overlapped": f.overlapped, "program0": c.Programs[0]}
 		})
